@@ -180,7 +180,55 @@ class _CommuteAdd(ast.NodeTransformer):
         return node
 
 
+class _TernaryToIf(ast.NodeTransformer):
+    """`x = a if c else b` -> if c: x = a / else: x = b (plain name targets)"""
+
+    def _expand(self, body):
+        out = []
+        for st in body:
+            if isinstance(st, ast.Assign) and len(st.targets) == 1 and isinstance(st.targets[0], ast.Name) \
+                    and isinstance(st.value, ast.IfExp):
+                t = st.targets[0]
+                out.append(ast.If(st.value.test,
+                                  [ast.Assign([ast.Name(t.id, ast.Store())], st.value.body)],
+                                  [ast.Assign([ast.Name(t.id, ast.Store())], st.value.orelse)]))
+            else:
+                out.append(st)
+        return out
+
+    def generic_visit(self, node):
+        super().generic_visit(node)
+        for fld in ("body", "orelse"):
+            lst = getattr(node, fld, None)
+            if isinstance(lst, list) and lst and isinstance(lst[0], ast.stmt):
+                setattr(node, fld, self._expand(lst))
+        return node
+
+
+class _EnumerateToRange(ast.NodeTransformer):
+    """`for i, x in enumerate(seq): body` -> `for i in range(len(seq)): x = seq[i]; body`
+    (seq a plain name)"""
+
+    def visit_For(self, node):
+        self.generic_visit(node)
+        if isinstance(node.iter, ast.Call) and isinstance(node.iter.func, ast.Name) and node.iter.func.id == "enumerate" \
+                and len(node.iter.args) == 1 and isinstance(node.iter.args[0], ast.Name) \
+                and isinstance(node.target, ast.Tuple) and len(node.target.elts) == 2 \
+                and all(isinstance(e, ast.Name) for e in node.target.elts):
+            i, x = node.target.elts
+            seq = node.iter.args[0].id
+            first = ast.Assign([ast.Name(x.id, ast.Store())],
+                               ast.Subscript(ast.Name(seq, ast.Load()), ast.Name(i.id, ast.Load()), ast.Load()))
+            return ast.For(ast.Name(i.id, ast.Store()),
+                           ast.Call(ast.Name("range", ast.Load()),
+                                    [ast.Call(ast.Name("len", ast.Load()), [ast.Name(seq, ast.Load())], [])], []),
+                           [first] + node.body, node.orelse)
+        return node
+
+
 TWINS = {
+    "ternary-to-if": (lambda t: _TernaryToIf().visit(t), ("solvers", "penalties", "datafits", "utils")),
+    "enumerate-to-range": (lambda t: _EnumerateToRange().visit(t), ("solvers", "penalties", "datafits", "utils")),
     "flip-comparisons": (lambda t: _FlipCompare().visit(t), ("solvers", "penalties", "datafits", "utils")),
     "commute-sums": (lambda t: _CommuteAdd().visit(t), ("penalties", "datafits", "utils")),
     "rename-locals": (lambda t: _RenameLocals().visit(t), ("solvers", "penalties", "datafits", "utils", "estimators.py", "experimental")),
